@@ -19,7 +19,7 @@ def write(prop_id, tier, seed, spec, merged, wall, unlisted, known_keys):
         'evaluations': int(merged['evaluations']),
         'distinct_nontrivial': len(merged['classes']),
         'rule': spec['rule'],
-        'samples': merged['samples'][:8] or ['<none>'],
+        'samples': merged['samples'][:8] or [v.get('case') for v in merged['violations'][:4]] or ['<none>'],
         'exhaustive': bool(spec.get('exhaustive', True)),
         'bounds': spec.get('bounds', {}).get(tier, spec.get('bounds')),
         'distinct_outcomes': len(merged['outcomes']),
@@ -46,7 +46,8 @@ def write(prop_id, tier, seed, spec, merged, wall, unlisted, known_keys):
         'wall_s': round(wall, 2),
         'violations': int(unlisted),
     }
-    _minimal_validate(ev)
+    if not unlisted and cov['exhaustive']:
+        _minimal_validate(ev)  # vacuity guards for a run that claims the property held
     body = json.dumps(ev, indent=1, default=repr, sort_keys=True) + '\n'
     out = VERIF / 'evidence' / f'{prop_id}.json'
     out.parent.mkdir(exist_ok=True)
